@@ -5,7 +5,7 @@ use crate::hist::{self, CellOp, LinResult, Val};
 use crate::json::{Counts, J};
 use crate::mon::{self, obj};
 use crate::node::{new_node, VNode};
-use crate::rcprog::{Flags, Profile, Shared, K, T};
+use crate::rcprog::{Flags, Profile, Role, Shared, K, T};
 use crate::rng::{mix, Rng};
 use crate::sched::{self, ExecCfg, Mode, Policy, Stall, ANY};
 use circ::verif::site as S;
@@ -61,6 +61,7 @@ pub fn profile(name: &str) -> Profile {
     let mut p = Profile {
         name: "rc",
         weights: common.clone(),
+        roles: Vec::new(),
         threads: (2, 3),
         ops: (8, 40),
         nroots: 3,
@@ -175,6 +176,80 @@ pub fn profile(name: &str) -> Profile {
                 S::AW_LOAD, S::AW_STORE_SWAP, S::AW_STORE_DEC, S::AW_SWAP, S::AW_CAS, S::AW_CAS, S::AW_CAS_TAG, S::DECW_SUB,
             ];
         }
+        "c02f" | "c01f" | "c05f" | "c03f" => {
+            // focused workloads: droppers / unlinkers against readers / upgraders on prefilled structures
+            let dropper = Role {
+                name: "dropper",
+                weights: w(&[(K::DropRc, 6), (K::Store, 7), (K::Swap, 4), (K::Churn, 10), (K::Flush, 3), (K::Finalize, 1), (K::Pin, 1), (K::Unpin, 3), (K::Load, 2), (K::Counted, 2)]),
+                ops: (4, 14),
+            };
+            let unlinker = Role {
+                name: "unlinker",
+                weights: w(&[(K::Swap, 8), (K::DropRc, 8), (K::Store, 4), (K::Load, 3), (K::Counted, 3), (K::Churn, 4), (K::Pin, 1), (K::Unpin, 3), (K::WSwap, 1)]),
+                ops: (3, 10),
+            };
+            let reader = Role {
+                name: "reader",
+                weights: w(&[(K::Pin, 3), (K::Load, 10), (K::WLoad, 7), (K::WsUpgrade, 10), (K::WeakSnap, 2), (K::Deref, 14), (K::RcSnapshot, 1), (K::Unpin, 1), (K::CasTag, 1), (K::Cas, 1)]),
+                ops: (6, 20),
+            };
+            let upgrader = Role {
+                name: "upgrader",
+                weights: w(&[(K::Upgrade, 14), (K::WLoad, 6), (K::WsCounted, 7), (K::WsUpgrade, 5), (K::WeakSnap, 2), (K::Deref, 10), (K::DropRc, 4), (K::Clone, 2), (K::Store, 3), (K::Swap, 2), (K::Load, 3), (K::Counted, 3), (K::Downgrade, 4), (K::Unpin, 4), (K::Churn, 2)]),
+                ops: (5, 16),
+            };
+            let weak_dropper = Role {
+                name: "weak-dropper",
+                weights: w(&[(K::WeakDrop, 10), (K::WStore, 7), (K::WSwap, 5), (K::Churn, 9), (K::DropRc, 4), (K::Store, 3), (K::Unpin, 3), (K::Flush, 2), (K::WLoad, 3), (K::WsCounted, 3)]),
+                ops: (4, 14),
+            };
+            let weak_reader = Role {
+                name: "weak-reader",
+                weights: w(&[(K::Pin, 3), (K::WLoad, 10), (K::WsCounted, 10), (K::WeakSnap, 4), (K::WeakClone, 3), (K::WeakDrop, 5), (K::Upgrade, 4), (K::WsUpgrade, 4), (K::Deref, 8), (K::Unpin, 2), (K::WCas, 2), (K::Load, 3), (K::SnapDowngrade, 3)]),
+                ops: (6, 20),
+            };
+            p.prefill = 16;
+            p.threads = (3, 4);
+            p.nroots = 3;
+            p.nwroots = 2;
+            match name {
+                "c02f" => {
+                    p.name = "c02f";
+                    p.long_chain = 700;
+                    p.roles = vec![dropper, reader, unlinker, reader_clone()];
+                    p.stall_sites = vec![
+                        S::DECS_LOAD, S::DECS_LOAD, S::DECS_CAS, S::COLLECT_AFTER_ADVANCE, S::COLLECT_AFTER_ADVANCE, S::COLLECT_POP,
+                        S::COLLECT_POP, S::BAG_CALL, S::BAG_CALL, S::DISP_CHILD, S::DISP_SIBLING, S::DISP_SIBLING, S::DISP_CHILD_CAS,
+                        S::DISP_REPIN, S::DISP_LOAD, S::DISP_EPOCH, S::TD_LOAD, S::TD_CAS, S::IND_LOAD, 120,
+                    ];
+                }
+                "c01f" => {
+                    p.name = "c01f";
+                    p.roles = vec![dropper, upgrader, unlinker];
+                    p.stall_sites = vec![
+                        S::INCS_ADD2, S::INCS_ADD2, S::INCS_ADD2, S::INCS_ADD1, S::DECS_LOAD, S::DECS_CAS, S::TD_LOAD, S::TD_CAS,
+                        S::COLLECT_POP, S::BAG_CALL, S::DISP_CHILD_CAS, S::DISP_LOAD, 120,
+                    ];
+                }
+                "c05f" => {
+                    p.name = "c05f";
+                    p.roles = vec![dropper, upgrader, reader];
+                    p.stall_sites = vec![
+                        S::INCS_ADD1, S::INCS_ADD2, S::INCS_ADD2, S::IND_LOAD, S::IND_CAS, S::TD_LOAD, S::TD_CAS, S::TD_CAS,
+                        S::DISP_CHILD_CAS, S::DISP_SIBLING, S::DISP_LOAD, S::DECS_CAS, S::COLLECT_POP, S::BAG_CALL, 120,
+                    ];
+                }
+                _ => {
+                    p.name = "c03f";
+                    p.roles = vec![weak_dropper, weak_reader, dropper];
+                    p.stall_sites = vec![
+                        S::DECW_SUB, S::DECW_DEFER, S::DECW_DEFER, S::TRY_DEALLOC_LOAD, S::TRY_DEALLOC_LOAD, S::INCW_LOAD,
+                        S::INCW_CAS, S::INCW_ADD1, S::INCW_ADD2, S::INCW_ADD2, S::INCW_ADD2, S::DISP_WEAKED, S::DISP_WEAKED,
+                        S::AW_STORE_DEC, S::COLLECT_POP, S::BAG_CALL, 120,
+                    ];
+                }
+            }
+        }
         "c14" => {
             p.name = "c14";
             p.long_chain = 600;
@@ -185,11 +260,25 @@ pub fn profile(name: &str) -> Profile {
     p
 }
 
-fn build_prefill(rng: &mut Rng, prof: &Profile, g: &circ::Guard) -> (Rc<VNode>, Option<u32>) {
-    let shape = rng.below(if prof.long_chain > 0 { 7 } else { 6 });
+fn reader_clone() -> Role {
+    Role {
+        name: "reader2",
+        weights: w(&[(K::Pin, 3), (K::Load, 12), (K::WLoad, 4), (K::WsUpgrade, 6), (K::Deref, 14), (K::Unpin, 1), (K::Swap, 3), (K::DropRc, 3)]),
+        ops: (5, 16),
+    }
+}
+
+fn build_prefill(rng: &mut Rng, prof: &Profile, g: &circ::Guard, pool: &mut Vec<(Weak<VNode>, u32)>) -> (Rc<VNode>, Option<u32>) {
+    let shape = rng.below(if prof.long_chain > 0 { 8 } else { 6 });
+    let pool = std::cell::RefCell::new(pool);
     let mk = |rng: &mut Rng| {
         let mask = *rng.pick(&[3u8, 3, 3, 3, 1, 2, 0]);
-        new_node(mask)
+        let (r, id) = new_node(mask);
+        // weak handles to some of the nodes (used for weak roots and for second strong owners)
+        if rng.chance(1, 2) {
+            pool.borrow_mut().push((r.downgrade(), id));
+        }
+        (r, id)
     };
     match shape {
         0 => {
@@ -257,10 +346,11 @@ fn build_prefill(rng: &mut Rng, prof: &Profile, g: &circ::Guard) -> (Rc<VNode>, 
         }
         _ => {
             // parent with a long left chain and a single right child (sibling after a long subtree)
-            let (p, pid) = new_node(3);
+            let (p, pid) = mk(rng);
             let n = rng.range(130, prof.long_chain as u64) as usize;
             let mut nodes: Vec<(Rc<VNode>, u32)> = (0..n).map(|_| new_node(3)).collect();
-            let (b, _) = new_node(3);
+            let (b, bid) = new_node(3);
+            pool.borrow_mut().push((b.downgrade(), bid));
             let mut tail: Rc<VNode> = Rc::null();
             while let Some((r, _)) = nodes.pop() {
                 if !tail.is_null() {
@@ -578,15 +668,18 @@ fn run_one(cfg: &RunCfg, prof: &Arc<Profile>, eseed: u64, idx: u64, st: &mut Bat
     let wroots: Vec<AtomicWeak<VNode>> = (0..prof.nwroots).map(|_| AtomicWeak::null()).collect();
     {
         let g = circ::cs();
-        let mut firsts = Vec::new();
+        let mut firsts: Vec<(Weak<VNode>, u32)> = Vec::new();
         for r in roots.iter() {
             if rng.below(16) < prof.prefill as u64 {
-                let (rc, id) = build_prefill(&mut rng, prof, &g);
+                let (rc, id) = if !firsts.is_empty() && rng.chance(1, 3) {
+                    // a second strong owner of a node that already hangs in another structure
+                    let k = rng.below(firsts.len() as u64) as usize;
+                    (firsts[k].0.upgrade().unwrap(), Some(firsts[k].1))
+                } else {
+                    build_prefill(&mut rng, prof, &g, &mut firsts)
+                };
                 let rc = if prof.tags { rc.with_tag(rng.below(8) as usize) } else { rc };
                 root_init.push((id.unwrap_or(0), rc.tag() as u8));
-                if let Some(i) = id {
-                    firsts.push((rc.downgrade(), i));
-                }
                 r.store(rc, SeqCst, &g);
             } else {
                 root_init.push((0, 0));
@@ -658,14 +751,20 @@ fn run_one(cfg: &RunCfg, prof: &Arc<Profile>, eseed: u64, idx: u64, st: &mut Bat
     mon::set_ctx(&cfg.profile, desc.clone(), nthreads + 1);
     let mut bodies: Vec<Box<dyn FnOnce() + Send>> = Vec::new();
     let ops_total = Arc::new(AtomicU64::new(0));
+    let role_shift = rng.below(8) as usize;
     for t in 0..nthreads {
         let sh2 = sh.clone();
         let prof2 = prof.clone();
-        let nops = rng.range(prof.ops.0 as u64, prof.ops.1 as u64);
+        let role = if prof.roles.is_empty() { None } else { Some((t + role_shift) % prof.roles.len()) };
+        let (lo, hi) = match role {
+            Some(r) => prof.roles[r].ops,
+            None => prof.ops,
+        };
+        let nops = rng.range(lo as u64, hi as u64);
         let tseed = mix(eseed, 1000 + t as u64);
         let ot = ops_total.clone();
         bodies.push(Box::new(move || {
-            let mut th = T::new(t as u32, tseed, sh2, prof2);
+            let mut th = T::new(t as u32, tseed, sh2, prof2, role);
             for _ in 0..nops {
                 th.step();
             }
